@@ -24,6 +24,7 @@ func init() {
 var syscMu sync.Mutex
 
 type scOp struct {
+	rerr   int  // origin: body read fails after this many bytes (-1: never)
 	kind   byte // 'R' request, 'T' tick, 'O' set origin
 	method string
 	path   string
@@ -60,7 +61,7 @@ func syscStream(g *hx.Gen, id int) hx.Case {
 	newOrigin := func(path string) scOp {
 		version++
 		st := []int{200, 200, 200, 200, 200, 404, 301, 500, 410, 201, 403}[g.Intn(11)]
-		o := scOp{kind: 'O', path: path, status: st, chunk: g.Chance(20)}
+		o := scOp{kind: 'O', path: path, status: st, chunk: g.Chance(20), rerr: -1}
 		if cc := g.Pick(scCacheControls); cc != "" {
 			o.hdr = append(o.hdr, [2]string{"Cache-Control", cc})
 		}
@@ -77,7 +78,35 @@ func syscStream(g *hx.Gen, id int) hx.Case {
 		if g.Chance(8) {
 			o.body = nil
 		}
+		if len(o.body) > 8 && g.Chance(10) {
+			o.rerr = len(o.body) / 2 // the origin connection breaks mid-body
+		}
 		return o
+	}
+	if g.Chance(15) {
+		// directed history: a cacheable entry goes stale, its revalidation is answered 200 with a NEW
+		// body that breaks off mid-stream; afterwards nobody may be served the fragment
+		p := paths[0]
+		mk := func(rerr bool) scOp {
+			version++
+			o := scOp{kind: 'O', path: p, status: 200, rerr: -1, chunk: g.Chance(30),
+				hdr: [][2]string{{"Cache-Control", "max-age=5"}, {"Content-Type", "text/plain"}}}
+			if g.Chance(50) {
+				o.hdr = append(o.hdr, [2]string{"ETag", "\"e" + hx.I(version) + "\""})
+			}
+			o.body = []byte("body-" + p + "-v" + hx.I(version) + "-" + g.Str("abcdef", 24))
+			if rerr {
+				o.rerr = 4 + g.Intn(len(o.body)-8)
+			}
+			return o
+		}
+		r := scOp{kind: 'R', method: "GET", path: p}
+		ops := []scOp{mk(false), r, {kind: 'T', dt: 6 + g.Intn(60)}, mk(true), r, r}
+		if g.Bool() {
+			ops = append(ops, scOp{kind: 'T', dt: 1}, r)
+		}
+		ops = append(ops, mk(false), r, r)
+		return syscRun("sysc", id, force, ops)
 	}
 	ops := []scOp{newOrigin(paths[0]), newOrigin(paths[1])}
 	n := 3 + g.Intn(5)
@@ -119,7 +148,7 @@ func kfC05a(g *hx.Gen, id int) hx.Case {
 	defer syscMu.Unlock()
 	st := []int{500, 410, 201}[id%3]
 	p := "kf" + hx.I(id)
-	ops := []scOp{{kind: 'O', path: p, status: st, hdr: [][2]string{{"Content-Type", "text/plain"}}, body: []byte("error-or-created-body")},
+	ops := []scOp{{kind: 'O', path: p, status: st, hdr: [][2]string{{"Content-Type", "text/plain"}}, body: []byte("error-or-created-body"), rerr: -1},
 		{kind: 'R', method: "GET", path: p}}
 	return syscRun("kf.C05-a", id, 0, ops)
 }
@@ -135,7 +164,7 @@ func syscRun(stream string, id int, force int, ops []scOp) hx.Case {
 			for _, kv := range o.hdr {
 				in = append(in, hx.X(kv[0]), hx.X(kv[1]))
 			}
-			in = append(in, hx.X(string(o.body)), hx.B(o.chunk))
+			in = append(in, hx.X(string(o.body)), hx.B(o.chunk), hx.I(o.rerr))
 		case 'R':
 			in = append(in, "R", hx.X(o.method), hx.X(o.path), hx.I(len(o.hdr)))
 			for _, kv := range o.hdr {
@@ -168,7 +197,7 @@ func syscRun(stream string, id int, force int, ops []scOp) hx.Case {
 			case 'T':
 				w.Advance(int64(o.dt))
 			case 'O':
-				cur[o.path] = &sysx.OriginResp{Status: o.status, Header: o.hdr, Body: o.body, Chunked: o.chunk, ReadErrAt: -1}
+				cur[o.path] = &sysx.OriginResp{Status: o.status, Header: o.hdr, Body: o.body, Chunked: o.chunk, ReadErrAt: o.rerr}
 			case 'R':
 				req := SysReq{Method: o.method, Target: "/c/" + o.path, Host: "h1.test", Header: o.hdr}
 				v := w.Do(req.Raw(), o.method == "HEAD")
